@@ -29,12 +29,44 @@ pub open spec fn a_freq_ok<R>(m: Map<String, (R, u64, u64)>) -> bool {
     forall|k: String| m.contains_key(k) ==> (#[trigger] m[k]).2 < u64::MAX
 }
 
+// ---- documented scores (C08): rank = position in the queue + 1 (back of the queue = most recently used = highest rank)
+pub open spec fn a_arc_score<R>(m: Map<String, (R, u64, u64)>, q: Seq<String>, i: int) -> f64 {
+    s_fmul(s_to_f64(m[q[i]].2), s_to_f64((i + 1) as u64))
+}
+pub open spec fn a_age_factor(birth: u64, ttl: Option<u64>) -> f64 {
+    if ttl is Some { s_fmax(s_fsub(s_one(), s_fmin(s_fdiv(s_to_f64(sat_sub(now_secs(), birth)), s_to_f64(ttl->Some_0)), s_one())), s_zero()) } else { s_one() }
+}
+pub open spec fn a_freq_component(hits: u64, fw: Option<f64>) -> f64 {
+    if fw is Some { if s_flt(s_zero(), s_to_f64(hits)) { s_fpowf(s_to_f64(hits), fw->Some_0) } else { s_zero() } } else { s_to_f64(hits) }
+}
+/// hits^frequency_weight x rank x remaining-lifetime fraction
+pub open spec fn a_tlru_score<R>(m: Map<String, (R, u64, u64)>, q: Seq<String>, i: int, ttl: Option<u64>, fw: Option<f64>) -> f64 {
+    s_fmul(s_fmul(a_freq_component(m[q[i]].2, fw), s_to_f64((i + 1) as u64)), a_age_factor(m[q[i]].1, ttl))
+}
+pub open spec fn a_stored<R>(m: Map<String, (R, u64, u64)>, q: Seq<String>, i: int) -> bool { 0 <= i < q.len() && m.contains_key(q[i]) }
+pub open spec fn a_arc_min_at<R>(m: Map<String, (R, u64, u64)>, q: Seq<String>, j: int) -> bool {
+    a_stored(m, q, j) && forall|i: int| #[trigger] a_stored(m, q, i) ==> !s_flt(a_arc_score(m, q, i), a_arc_score(m, q, j))
+}
+pub open spec fn a_tlru_min_at<R>(m: Map<String, (R, u64, u64)>, q: Seq<String>, j: int, ttl: Option<u64>, fw: Option<f64>) -> bool {
+    a_stored(m, q, j) && forall|i: int| #[trigger] a_stored(m, q, i) ==> !s_flt(a_tlru_score(m, q, i, ttl, fw), a_tlru_score(m, q, j, ttl, fw))
+}
+pub open spec fn tlru_cfg_ok(ttl: Option<u64>, fw: Option<f64>) -> bool {
+    (fw is Some ==> nonneg(fw->Some_0) && !is_zero(fw->Some_0)) && (ttl is Some ==> ttl->Some_0 >= 1)
+}
+pub open spec fn pairs_indexed<K>(ks: Seq<(usize, &K)>) -> bool { forall|j: int| 0 <= j < ks.len() ==> (#[trigger] ks[j]).0 == j }
+
+/// R4: `o.iter().enumerate()` -> the vector of (index, &element) pairs the iterator yields
+#[verifier::external_body]
+pub fn enum_collect<'a>(o: &'a VecDeque<String>) -> (r: Vec<(usize, &'a String)>)
+    ensures r@.len() == o@.len(), r@.len() <= usize::MAX, pairs_indexed(r@), forall|j: int| #![trigger r@[j]] #![trigger o@[j]] 0 <= j < r@.len() ==> *r@[j].1 == o@[j],
+{ unimplemented!() }
+
 /// C07 / C08 victim choice of the async engine, over the residents (the new entry is not stored yet)
 pub open spec fn evicted_a<R>(m0: Map<String, (R, u64, u64)>, q0: Seq<String>, m1: Map<String, (R, u64, u64)>, q1: Seq<String>, v: String) -> bool {
     m1 == m0.remove(v) && q1 == rm1(q0, v)
 }
 
-pub open spec fn async_victim_ok<R>(p: EvictionPolicy, m: Map<String, (R, u64, u64)>, q: Seq<String>, v: String) -> bool {
+pub open spec fn async_victim_ok<R>(p: EvictionPolicy, m: Map<String, (R, u64, u64)>, q: Seq<String>, v: String, ttl: Option<u64>, fw: Option<f64>) -> bool {
     q.contains(v) && m.contains_key(v) && match p {
         EvictionPolicy::FIFO | EvictionPolicy::LRU => v == q[0],
         EvictionPolicy::LFU => a_is_min_hits(m, q, v),
@@ -95,9 +127,25 @@ STUB_ENS = [
     ('none_only_if_no_resident', ['C04'], 'res is None ==> forall|j: int| 0 <= j < order@.len() ==> !old(cache)@.contains_key(#[trigger] order@[j])'),
 ]
 
+FLOAT_HINT = (('fn_start',), 'float_axioms', 'broadcast use fl::group_float;')
+ELEM_HINT = (('loop_start', 0), 'current_pair', 'broadcast use fl::group_float; assert(idx == it.index@ && *evict_key == order@[it.index@ as int]);')
+
+
+def finder_loop(code, extra='true'):
+    return dict(iter='it', invariant=[
+        ('frame', 'cache@ == old(cache)@ && %s' % extra),
+        ('snap', 'it.snapshot@.remaining().len() == order@.len() && order@.len() <= usize::MAX && pairs_indexed(it.snapshot@.remaining()) '
+                 '&& forall|j: int| #![trigger it.snapshot@.remaining()[j]] #![trigger order@[j]] 0 <= j < order@.len() ==> *it.snapshot@.remaining()[j].1 == order@[j]'),
+        ('none_yet', 'best_evict_key is None ==> best_score == s_max() && forall|i: int| 0 <= i < it.index@ ==> !cache@.contains_key(#[trigger] order@[i])'),
+        ('best_so_far', 'best_evict_key is Some ==> exists|j: int| 0 <= j < it.index@ && a_stored(cache@, order@, j) && (#[trigger] order@[j]) == best_evict_key->Some_0 && best_score == ' + (code % 'j')),
+        ('lower_bound', 'forall|i: int| 0 <= i < it.index@ && a_stored(cache@, order@, i) ==> !s_flt(#[trigger] ' + (code % 'i') + ', best_score)'),
+    ])
+
+
 EVICT_REQ = [('wf', 'wf(old(cache)@, old(order)@)'),
              ('counters_unsaturated', 'a_freq_ok(old(cache)@)'),
              ('limit_positive', 'limit is Some ==> limit->Some_0 >= 1'),
+             ('tlru_cfg', 'policy is TLRU ==> tlru_cfg_ok(ttl, frequency_weight)'),
              ('front_stored', 'old(order)@.len() > 0 ==> old(cache)@.contains_key(old(order)@[0]) && old(order)@.contains(old(order)@[0])')]
 EVICT_ENS = [
     ('post_wf', ['C04'], 'wf(final(cache)@, final(order)@)'),
@@ -105,7 +153,7 @@ EVICT_ENS = [
     ('queue_shrinks', ['C04', 'C07'], 'final(order)@.len() <= old(order)@.len() && forall|x: String| #[trigger] final(order)@.contains(x) ==> old(order)@.contains(x)'),
     ('no_overflow_noop', ['C04', 'C03'], '(limit is None || old(cache)@.len() < limit->Some_0) ==> final(cache)@ == old(cache)@ && final(order)@ == old(order)@'),
     ('overflow_one_victim', ['C04', 'C07', 'C08'], '(limit is Some && old(cache)@.len() >= limit->Some_0) ==> '
-     'exists|v: String| async_victim_ok(policy, old(cache)@, old(order)@, v) && final(cache)@ == #[trigger] old(cache)@.remove(v) && final(order)@ == rm1(old(order)@, v)'),
+     'exists|v: String| async_victim_ok(policy, old(cache)@, old(order)@, v, ttl, frequency_weight) && final(cache)@ == #[trigger] old(cache)@.remove(v) && final(order)@ == rm1(old(order)@, v)'),
 ]
 
 MA = '%s.remove(%s)' % (M0, K)
@@ -119,12 +167,13 @@ INSERT_ENS = [
     ('fits_exact', ['C04', 'C03'], '(old(self).limit is None || %s.len() < old(self).limit->Some_0) ==> '
      '%s == %s.insert(%s, %s) && final(self).order@ == touch(old(self).order@, %s)' % (MA, M1, M0, K, NEW, K)),
     ('overflow_one_victim', ['C04', 'C07', 'C08'], '(old(self).limit is Some && %s.len() >= old(self).limit->Some_0) ==> '
-     'exists|v: String| async_victim_ok(old(self).policy, %s, %s, v) && %s == (#[trigger] %s.remove(v)).insert(%s, %s) && final(self).order@ == rm1(%s, v).push(%s)'
+     'exists|v: String| async_victim_ok(old(self).policy, %s, %s, v, old(self).ttl, old(self).frequency_weight) && %s == (#[trigger] %s.remove(v)).insert(%s, %s) && final(self).order@ == rm1(%s, v).push(%s)'
      % (MA, MA, QA, M1, MA, K, NEW, QA, K)),
     ('survivors_unchanged', ['C01', 'C13'], 'forall|x: String| x != %s && #[trigger] %s.contains_key(x) ==> %s.contains_key(x) && %s[x] == %s[x]' % (K, M1, M0, M1, M0)),
     ('bound', ['C04'], '(old(self).limit is Some && %s.len() <= old(self).limit->Some_0) ==> %s.len() <= old(self).limit->Some_0' % (M0, M1)),
 ]
-INSERT_REQ = WF + [('counters_unsaturated', 'a_freq_ok(old(self).cache@)'), ('limit_positive', 'old(self).limit is Some ==> old(self).limit->Some_0 >= 1')]
+INSERT_REQ = WF + [('counters_unsaturated', 'a_freq_ok(old(self).cache@)'), ('limit_positive', 'old(self).limit is Some ==> old(self).limit->Some_0 >= 1'),
+              ('tlru_cfg', 'old(self).policy is TLRU ==> tlru_cfg_ok(old(self).ttl, old(self).frequency_weight)')]
 
 OVERSIZE = '(old(self).max_memory is Some && value.mem() > old(self).max_memory->Some_0)'
 SA_TOTAL = 'a_mem_total(%s, %s)' % (MA, QA)
@@ -147,7 +196,8 @@ MEMLOOP = dict(
     invariant=[
         ('wf', 'wf(self.cache@, order@)'),
         ('cfg', 'self.limit == old(self).limit && self.max_memory == old(self).max_memory && self.policy == old(self).policy && self.ttl == old(self).ttl '
-                '&& self.frequency_weight == old(self).frequency_weight && self.stats == old(self).stats && self.max_memory == Some(max_mem) && value_size == value.mem() && value_size <= max_mem'),
+                '&& self.frequency_weight == old(self).frequency_weight && self.stats == old(self).stats && self.max_memory == Some(max_mem) && value_size == value.mem() && value_size <= max_mem '
+                '&& (self.policy is TLRU ==> tlru_cfg_ok(self.ttl, self.frequency_weight))'),
         ('counters', 'a_freq_ok(self.cache@)'),
         ('pre_facts', 'wf(%s, %s) && %s + value.mem() <= usize::MAX' % (MA, QA, SA_TOTAL)),
         ('submap', 'forall|x: String| #[trigger] self.cache@.contains_key(x) ==> x != %s && %s.contains_key(x) && self.cache@[x] == %s[x]' % (K, M0, M0)),
@@ -162,6 +212,7 @@ MEMLOOP = dict(
 
 UNIT = dict(
     name='async_cache',
+    prelude=['prelude.rs', 'prelude_float.rs'],
     items=COMMON + [SPEC,
         dict(kind='struct', file=A, name='AsyncGlobalCache', rules=R1_TYPES + LIFETIME),
         fn('get', ret='res', rules=R4 + R5, requires=WF, ensures=GET_ENS),
@@ -180,8 +231,17 @@ UNIT = dict(
                ('lower_bound', 'forall|j: int| 0 <= j < it.index@ && cache@.contains_key(#[trigger] order@[j]) ==> min_freq <= cache@[order@[j]].2'),
                ('none_max', 'min_freq_key is None ==> min_freq == u64::MAX'),
            ])}),
-        fn('find_arc_eviction_key', split_self=True, ret='res', stub=True, ensures=STUB_ENS),
-        fn('find_tlru_eviction_key', split_self=True, ret='res', stub=True, ensures=STUB_ENS),
+        fn('find_arc_eviction_key', split_self=True, ret='res', rules=R4, r6=True, hints=[FLOAT_HINT, ELEM_HINT],
+           ensures=[FIND_FRAME,
+                    ('argmin_documented_score', ['C08'], 'res is Some ==> exists|j: int| #[trigger] a_stored(old(cache)@, order@, j) && order@[j] == res->Some_0 && a_arc_min_at(old(cache)@, order@, j)'),
+                    STUB_ENS[2]],
+           loops={0: finder_loop('a_arc_score(cache@, order@, %s)')}),
+        fn('find_tlru_eviction_key', split_self=True, ret='res', rules=R4 + R5, r6=True, f64_vars=['weight'], hints=[FLOAT_HINT, ELEM_HINT],
+           requires=[('cfg', 'tlru_cfg_ok(ttl, frequency_weight)')],
+           ensures=[FIND_FRAME,
+                    ('argmin_documented_score', ['C08'], 'res is Some ==> exists|j: int| #[trigger] a_stored(old(cache)@, order@, j) && order@[j] == res->Some_0 && a_tlru_min_at(old(cache)@, order@, j, ttl, frequency_weight)'),
+                    STUB_ENS[2]],
+           loops={0: finder_loop('a_tlru_score(cache@, order@, %s, ttl, frequency_weight)', 'tlru_cfg_ok(ttl, frequency_weight) && now == now_secs()')}),
         fn('handle_entry_limit_eviction', split_self=True, rules=R4 + R5, requires=EVICT_REQ, ensures=EVICT_ENS,
            loops={0: dict(
                invariant_except_break=[('nothing_popped', 'cache@ == old(cache)@ && order@ == old(order)@')],
